@@ -3,7 +3,7 @@
 of /repo, never to /repo) and records exit code / number of VIOLATION lines per check in seeded/<name>/meta.json"""
 import json, os, re, subprocess, sys, tempfile, shutil, hashlib
 name, tier, props = sys.argv[1], sys.argv[2], sys.argv[3:]
-d = "/verif/seeded/" + name
+d = ("/verif/neutral/" + name) if name.startswith("N") else ("/verif/seeded/" + name)
 meta = json.load(open(d + "/meta.json"))
 scr = tempfile.mkdtemp(prefix="cntgs-verif-seed.", dir=os.environ.get("TMPDIR", "/var/tmp"))
 try:
